@@ -183,6 +183,16 @@ class EchoContract:
         return list(args)
 
 
+# the same contracts as objects that happen to be falsy (a stateful contract that is empty at the moment): whether a contract is
+# registered is a matter of its id, not of the truth value of the object
+class EmptyLenEcho(EchoContract):
+    def __len__(self): return 0
+
+
+class FalseEcho(EchoContract):
+    def __bool__(self): return False
+
+
 class TransferContract:
     def __init__(self, cid, log): self.cid, self.log = cid, log
     def verify_txn_proof(self, proof): return len(proof) > 0 and proof[0] & 1 == 1
@@ -190,6 +200,12 @@ class TransferContract:
         return len(proof) > 0 and len(source) > 0 and proof[-1] == source[0]
     def verify_txn_constraint(self, proof, constraint): return len(constraint) <= len(proof)
     def calc_txn_aggregates(self, proofs, scope=None): return {scope: sum(len(p) for p in proofs)}
+
+
+class DictTransferContract(dict, TransferContract):
+    """a dict-derived (and empty, hence falsy) contract object"""
+    def __init__(self, cid, log):
+        dict.__init__(self); TransferContract.__init__(self, cid, log)
 
 
 # ---------------------------------------------------------------- configuration of one case
@@ -244,7 +260,10 @@ class Cfg:
     def contract_objs(self, log):
         d = {}
         for cid, kind in self.contracts:
-            d[cid] = TransferContract(cid, log) if kind == 'transfer' else EchoContract(cid, kind, log)
+            if kind == 'transfer':
+                d[cid] = (DictTransferContract if cid[-1:] in b'579' else TransferContract)(cid, log)
+            else:
+                d[cid] = (EchoContract, EmptyLenEcho, FalseEcho)[cid[-1] % 3 if cid else 0](cid, kind, log)
         return d
 
     def to_json(self):
